@@ -81,7 +81,7 @@ theorem traceSt_after (p : Pipeline) (tr : List Ev) : ∀ d, traceSt p tr (tr.le
     rw [e, traceSt, List.getElem?_eq_none (by omega)]
     exact ih
 
-def Ev.isEnv : Ev → Bool
+def Ev.envOnly : Ev → Bool
   | .env _ => true
   | _ => false
 
@@ -90,14 +90,14 @@ theorem enabled_succs {p : Pipeline} {s : State} {g : Gi} (h : Enabled p s g) :
   obtain ⟨e, s', hst, hm⟩ := h
   exact ⟨(e, .run s'), (mem_succs_iff p s e _).mpr hst, hm⟩
 
-theorem not_enabled_of_env_only {p : Pipeline} {s : State} (h : (succs p s).all (fun x => x.1.isEnv) = true)
+theorem not_enabled_of_env_only {p : Pipeline} {s : State} (h : (succs p s).all (fun x => x.1.envOnly) = true)
     (g : Gi) : ¬ Enabled p s g := by
   intro hen
   obtain ⟨x, hx, hm⟩ := enabled_succs hen
   rw [List.all_eq_true] at h
   have := h x hx
   obtain ⟨e, c⟩ := x
-  cases e <;> simp [Ev.isEnv] at this
+  cases e <;> simp [Ev.envOnly] at this
   simp [Ev.moves] at hm
 
 theorem enabled_at {p : Pipeline} {s : State} {g : Gi} (h : Enabled p s g) : ∃ pc, s.gs[g]? = some (.at pc) := by
@@ -118,7 +118,7 @@ theorem enabled_at {p : Pipeline} {s : State} {g : Gi} (h : Enabled p s g) : ∃
 
 /-- a finite run whose last state enables environment steps only is fair -/
 theorem ofTrace_fair (p : Pipeline) (tr : List Ev) (h : traceOk p tr = true)
-    (hend : (succs p (traceSt p tr tr.length)).all (fun x => x.1.isEnv) = true) :
+    (hend : (succs p (traceSt p tr tr.length)).all (fun x => x.1.envOnly) = true) :
     Fair (Run.ofTrace p tr h) := by
   have hev : ∀ i, tr.length ≤ i → (Run.ofTrace p tr h).ev i = none := by
     intro i hi
